@@ -1,11 +1,27 @@
 import PGM.Proofs.PublicSem
+import PGM.Proofs.PublicLyap
 /-!
 # C19 — public-data reweighting yields valid weights and never a worse fit
 
 Theorems about `PGM/Model/Public.lean` (entropic mirror descent of `public_inference.py`, transcribed
-as written — the acceptance test uses the *stale* starting point `P₀`), at the real-number instance.
-The squared-error objective as a function of the record weights is the quadratic `Cert.loss` with
-`A = (1/σ)·Q·Inc`; `Cert.fw_gap_bound`'s first-order convexity (C03) pins `dweights` as its gradient.
+as written — the gradient is centred at the top of the loop body, and the acceptance test uses the
+*stale* starting point `P₀`), at the real-number instance.  The squared-error objective as a function
+of the record weights is the quadratic `Cert.loss` with `A = (1/σ)·Q·Inc`; `Cert.fw_gap_bound`'s
+first-order convexity (C03) pins `dweights` as its gradient.  Nothing below assumes anything about
+the objective beyond "one gradient entry per weight" (`GradLen`).
+
+* `emd_weights_valid`, `emd_zero_iters` — the output is a positive weight vector of the right mass.
+* `center_dot_invariant`, `center_step_invariant`, `center_idem` — the centring `dL − mean(dL)`
+  changes neither the proposed point nor the acceptance test.
+* `emd_step_loss_consistent`, `emd_step_alpha_pos` — loop invariants: stored loss = objective at the
+  stored point, stored gradient = gradient there up to centring, step size positive.
+* `emd_step_descent` — per-step descent, CONDITIONAL on a nonnegative threshold; and
+  `emd_step_may_increase` — an actual run in which an accepted step increases the loss.
+* **`emd_lyapunov_step`** — `loss + ½·KL(P₀ ‖ P)` never increases in an iteration (any `α`, any
+  objective): the stale `P₀` in the test is exactly what makes this a Lyapunov function.
+* **`emd_never_worse_than_start`** — PROVED, unconditional: for every objective, positive start,
+  total and iteration count the returned weights fit at least as well as the starting point
+  `P₀ = x0·total/Σx0`.  (Formerly only checked per run.)
 -/
 namespace PGM.C19
 open PGM PGM.Public
@@ -26,23 +42,139 @@ theorem emd_zero_iters (lossgrad : List ℝ → ℝ × List ℝ) (x0 : List ℝ)
     emd lossgrad x0 total 0 0 = x0.map (fun x => x * total / x0.sum) := by
   apply Public.emd_zero_iters <;> assumption
 
-/-- **conditional descent (as written)**: one iteration never increases the stored loss when the
-acceptance threshold `½·α·⟨dL, P₀ − Q⟩` (computed with the *stale* `P₀`) is nonnegative; when it is
-negative an increase can be accepted — the unconditional "never worse than uniform" is therefore
-not derivable from the acceptance rule and is checked per run -/
-theorem emd_step_descent (lossgrad : List ℝ → ℝ × List ℝ) (total : ℝ) (P0 : List ℝ) (s : EmdState ℝ) :
+/-- hypotheses of `emd_weights_valid` / `emd_never_worse_than_start` are satisfiable -/
+example : GradLen exLG ∧ (∀ x ∈ ([1, 1] : List ℝ), 0 < x) ∧ ([1, 1] : List ℝ) ≠ [] ∧ (0 : ℝ) < 2 :=
+  ⟨exLG_gradlen, by simp, by simp, by norm_num⟩
+
+/-- **centring does not change the test**: for `d, x, y` of equal length with `Σx = Σy`,
+`⟨center d, x − y⟩ = ⟨d, x − y⟩` -/
+theorem center_dot_invariant (d x y : List ℝ) (h1 : d.length = x.length) (h2 : x.length = y.length)
+    (hs : x.sum = y.sum) :
+    dotv (center d) (List.zipWith (· - ·) x y) = dotv d (List.zipWith (· - ·) x y) := by
+  apply Public.center_dot_invariant <;> assumption
+
+example : ([1, 2, 6] : List ℝ).length = ([1, 2, 3] : List ℝ).length ∧
+    ([1, 2, 3] : List ℝ).length = ([3, 2, 1] : List ℝ).length ∧
+    ([1, 2, 3] : List ℝ).sum = ([3, 2, 1] : List ℝ).sum := by
+  refine ⟨rfl, rfl, ?_⟩; norm_num
+
+/-- **centring does not change the step**: the proposed `logQ` of `emdStep` (computed from
+`center s.dL`) equals the normalised tilt computed from `s.dL` itself -/
+theorem center_step_invariant (total : ℝ) (s : EmdState ℝ) :
+    let logQ0c := List.zipWith (fun lp d => lp - s.alpha * d) s.logP (center s.dL)
     let logQ0 := List.zipWith (fun lp d => lp - s.alpha * d) s.logP s.dL
+    logQ0c.map (fun v => v + (Real.log total - Real.log ((logQ0c.map Real.exp).sum)))
+      = logQ0.map (fun v => v + (Real.log total - Real.log ((logQ0.map Real.exp).sum))) :=
+  Public.center_step_invariant total s
+
+/-- `center` is idempotent -/
+theorem center_idem (d : List ℝ) : center (center d) = center d := Public.center_idem d
+
+/-- **conditional descent (as written)**: one iteration never increases the stored loss when the
+acceptance threshold `½·α·⟨dL, P₀ − Q⟩` (centred gradient, *stale* `P₀`) is nonnegative; when it is
+negative an increase can be accepted — see `emd_step_may_increase` -/
+theorem emd_step_descent (lossgrad : List ℝ → ℝ × List ℝ) (total : ℝ) (P0 : List ℝ) (s : EmdState ℝ) :
+    let dL := center s.dL
+    let logQ0 := List.zipWith (fun lp d => lp - s.alpha * d) s.logP dL
     let shift := Real.log total - Real.log ((logQ0.map Real.exp).sum)
     let Q := (logQ0.map (fun v => v + shift)).map Real.exp
-    0 ≤ (1 / 2 : ℝ) * s.alpha * dotv s.dL (List.zipWith (· - ·) P0 Q) →
-    (emdStep lossgrad total P0 s).loss ≤ s.loss := by
-  apply Public.emd_step_descent <;> assumption
+    0 ≤ (1 / 2 : ℝ) * s.alpha * dotv dL (List.zipWith (· - ·) P0 Q) →
+    (emdStep lossgrad total P0 s).loss ≤ s.loss :=
+  Public.emd_step_descent lossgrad total P0 s
 
-/-- the stored loss is always the objective at the stored point -/
+/-- the threshold hypothesis of `emd_step_descent` holds e.g. at the first step of the example run
+(`thr = (15/17)·log 4 ≥ 0`) -/
+example : 0 ≤ thr 2 [1, 1] exS0 := by
+  rw [exThr1]
+  have := Real.log_nonneg (show (1 : ℝ) ≤ 4 by norm_num)
+  positivity
+
+/-- the stored loss is always the objective at the stored point, and the stored gradient is the
+gradient there up to centring (a rejected step stores the centred gradient) -/
 theorem emd_step_loss_consistent (lossgrad : List ℝ → ℝ × List ℝ) (total : ℝ) (P0 : List ℝ) (s : EmdState ℝ)
-    (h : s.loss = (lossgrad (s.logP.map Real.exp)).1 ∧ s.dL = (lossgrad (s.logP.map Real.exp)).2) :
+    (h : s.loss = (lossgrad (s.logP.map Real.exp)).1 ∧
+      center s.dL = center (lossgrad (s.logP.map Real.exp)).2) :
     (emdStep lossgrad total P0 s).loss = (lossgrad ((emdStep lossgrad total P0 s).logP.map Real.exp)).1 ∧
-    (emdStep lossgrad total P0 s).dL = (lossgrad ((emdStep lossgrad total P0 s).logP.map Real.exp)).2 := by
-  apply Public.emd_step_loss_consistent <;> assumption
+    center (emdStep lossgrad total P0 s).dL
+      = center (lossgrad ((emdStep lossgrad total P0 s).logP.map Real.exp)).2 :=
+  Public.emd_step_loss_consistent lossgrad total P0 s h
+
+example : exS1.loss = (exLG (exS1.logP.map Real.exp)).1 ∧
+    center exS1.dL = center (exLG (exS1.logP.map Real.exp)).2 := by
+  rw [exS1_exp, exLG_b]; exact ⟨rfl, rfl⟩
+
+/-- the step size stays positive (it starts at 1 and is only doubled or halved) — not needed by the
+Lyapunov step, which holds for every `α` -/
+theorem emd_step_alpha_pos (lossgrad : List ℝ → ℝ × List ℝ) (total : ℝ) (P0 : List ℝ) (s : EmdState ℝ)
+    (h : 0 < s.alpha) : 0 < (emdStep lossgrad total P0 s).alpha :=
+  Public.emd_step_alpha_pos lossgrad total P0 s h
+
+/-- **Gibbs**: `KL(P₀ ‖ exp logP) = Σ P₀ᵢ (log P₀ᵢ − logPᵢ) ≥ 0` for nonnegative `P₀` of the same
+mass (`klDiv p q = Σ pᵢ (log pᵢ − log qᵢ)`) -/
+theorem klDiv_nonneg (P0 lp : List ℝ) (hl : P0.length = lp.length) (hp : ∀ x ∈ P0, 0 ≤ x)
+    (hm : P0.sum = (lp.map Real.exp).sum) : 0 ≤ klDiv P0 (lp.map Real.exp) :=
+  Public.klDiv_nonneg P0 lp hl hp hm
+
+/-- **Lyapunov step**: with `Φ(s) = s.loss + ½·KL(P₀ ‖ exp s.logP)`, one iteration never increases
+`Φ` — for every objective, every step size `α` (no sign condition), every state whose stored point
+`exp s.logP` has the mass `total` of `P₀` (shapes matching; no positivity of `P₀` is needed here) -/
+theorem emd_lyapunov_step (lossgrad : List ℝ → ℝ × List ℝ) (total : ℝ) (P0 : List ℝ) (s : EmdState ℝ)
+    (hl1 : P0.length = s.logP.length) (hl2 : s.dL.length = s.logP.length)
+    (hm : (s.logP.map Real.exp).sum = total) (hp0 : P0.sum = total) :
+    (emdStep lossgrad total P0 s).loss
+        + (1 / 2 : ℝ) * klDiv P0 ((emdStep lossgrad total P0 s).logP.map Real.exp)
+      ≤ s.loss + (1 / 2 : ℝ) * klDiv P0 (s.logP.map Real.exp) :=
+  Public.emd_lyapunov_step lossgrad total P0 s hl1 hl2 hm hp0
+
+/-- the hypotheses hold at the state of the example run from which the loss goes UP (0 → 1/4) while
+`Φ` goes down -/
+example : ([1, 1] : List ℝ).length = exS1.logP.length ∧ exS1.dL.length = exS1.logP.length ∧
+    (exS1.logP.map Real.exp).sum = 2 ∧ ([1, 1] : List ℝ).sum = 2 := by
+  refine ⟨(logQ_length 2 exS0 2 rfl rfl).symm, (logQ_length 2 exS0 2 rfl rfl).symm, ?_, ?_⟩
+  · rw [exS1_exp]; norm_num
+  · norm_num
+
+/-- **never worse than the start** (unconditional): for every objective, every positive starting
+weights, every total > 0 and EVERY iteration count, the objective at the returned weights is at most
+the objective at the starting point `P₀ = x0·total/Σx0` — although single accepted steps may
+increase it (`emd_step_may_increase`) -/
+theorem emd_never_worse_than_start (lossgrad : List ℝ → ℝ × List ℝ) (x0 : List ℝ) (total : ℝ)
+    (iters : Nat) (hg : GradLen lossgrad) (hx : ∀ x ∈ x0, 0 < x) (hne : x0 ≠ []) (ht : 0 < total) :
+    (lossgrad (emd lossgrad x0 total 0 iters)).1
+      ≤ (lossgrad (x0.map (fun x => x * total / x0.sum))).1 := by
+  apply Public.emd_never_worse_than_start <;> assumption
+
+/-- the example run, explicitly: weights after 0, 1, 2 iterations (losses 3, 0, 1/4) -/
+theorem emd_example_run :
+    emd exLG [1, 1] 2 0 0 = [1, 1] ∧ emd exLG [1, 1] 2 0 1 = [2 / 17, 32 / 17] ∧
+    emd exLG [1, 1] 2 0 2 = [2 / 5, 8 / 5] ∧
+    (exLG [1, 1]).1 = 3 ∧ (exLG [2 / 17, 32 / 17]).1 = 0 ∧ (exLG [2 / 5, 8 / 5]).1 = 1 / 4 :=
+  ⟨Public.emd_example_run.1, Public.emd_example_run.2.1, Public.emd_example_run.2.2,
+    by rw [exLG_a], by rw [exLG_b], by rw [exLG_c]⟩
+
+/-- **an accepted step can increase the loss**: there is an objective (one gradient entry per
+weight), positive starting weights and a total for which the objective after two iterations is
+strictly larger than after one — so `emd_never_worse_than_start` is not a consequence of per-step
+descent -/
+theorem emd_step_may_increase :
+    ∃ (lossgrad : List ℝ → ℝ × List ℝ) (x0 : List ℝ) (total : ℝ),
+      GradLen lossgrad ∧ (∀ x ∈ x0, 0 < x) ∧ x0 ≠ [] ∧ 0 < total ∧
+      (lossgrad (emd lossgrad x0 total 0 1)).1 < (lossgrad (emd lossgrad x0 total 0 2)).1 :=
+  Public.emd_step_may_increase
+
+/-- the same at the level of one step: a state satisfying every loop invariant (shape, mass, stored
+loss and gradient consistent, positive step size) from which `emdStep` accepts (the point moves) and
+the stored loss strictly increases -/
+theorem emd_step_may_increase_state :
+    ∃ (lossgrad : List ℝ → ℝ × List ℝ) (total : ℝ) (P0 : List ℝ) (s : EmdState ℝ),
+      GradLen lossgrad ∧
+      (s.logP.length = P0.length ∧ s.dL.length = P0.length ∧ (s.logP.map Real.exp).sum = total) ∧
+      P0.sum = total ∧ (∀ x ∈ P0, 0 < x) ∧
+      (s.loss = (lossgrad (s.logP.map Real.exp)).1 ∧
+        center s.dL = center (lossgrad (s.logP.map Real.exp)).2) ∧
+      0 < s.alpha ∧
+      (emdStep lossgrad total P0 s).logP.map Real.exp ≠ s.logP.map Real.exp ∧
+      s.loss < (emdStep lossgrad total P0 s).loss :=
+  Public.emd_step_may_increase_state
 
 end PGM.C19
